@@ -768,6 +768,30 @@ func opSet(r *Run, o *simObj, what string) {
 			return
 		}
 		r.stat("set_disallowed", 1)
+		// a rejected call changes nothing - not even what the same iterator does next
+		if !cur.isContainer() {
+			got, err := scalarOf(&it, it.Type())
+			if err != nil || Diff(cur, got, EqExact) != "" {
+				r.violate("set", "iter-changed-by-rejected-call", fmt.Sprintf("%s: after the rejected %s the same iterator reads %v (%v) instead of %s", what, name, got, err, cur.short()))
+				return
+			}
+		}
+		if c.Intn("followup", 2) == 1 {
+			// SetNull is allowed on every value type: apply it through the very same iterator
+			var nerr error
+			if e := safely(func() error { nerr = it.SetNull(); return nil }); e != nil {
+				walkerFail(r, "set", what+": SetNull after a rejected "+name, e)
+				return
+			}
+			if nerr != nil {
+				r.violate("set", "allowed-rejected", fmt.Sprintf("%s: SetNull after a rejected %s on a %s returned %v", what, name, cur.K, nerr))
+				return
+			}
+			r.trace("%s: SetNull through the same iterator after the rejected call", what)
+			setAt(o.model, pos, mvNull())
+			o.edited = true
+			r.stat("set_applied", 1)
+		}
 	}
 }
 
